@@ -56,6 +56,8 @@ fn apply(inst: &mut Inst, call: &str) {
 
 fn boot(theme: &str) -> Inst {
     let mut xs = fresh();
+    // histories are short; a runaway recursion (an unresolved `late` word calling itself) is cut off early
+    xs.set_insn_limit(Some(20_000)).unwrap();
     if theme == "canvas" {
         xeh::d2_plugin::load(&mut xs).unwrap();
     }
